@@ -59,6 +59,19 @@ fn main() {
     println(r);
 }
 `}},
+	// loops over variables whose names differ by trailing digits, in two modules: whatever the
+	// compiler numbers (labels, iterators, slots) must not depend on the order the modules are compiled in
+	{Name: "loops-over-similar-names-in-two-modules", Tree: true, Mods: map[string]string{"main": `import { many } from lib;
+fn main() {
+    println(many());
+    let n = 0;
+    for i1 in 0..0 { n += 100; }
+    for i in 0..3 { n += 1; }
+    for i10 in 0..2 { n += 10; }
+    for i in 0..2 { for i1 in 0..2 { n += 1000; } }
+    println(n);
+}
+`, "lib": "pub fn many() -> int {\n    let t = 0;\n    for i in 0..2 { t += i; }\n    for i in 0..2 { t += i; }\n    for i in 0..2 { t += i; }\n    for i in 0..2 { t += i; }\n    for i in 0..2 { t += i; }\n    for i in 0..2 { t += i; }\n    for i in 0..2 { t += i; }\n    for i in 0..2 { t += i; }\n    for i in 0..2 { t += i; }\n    for i in 0..2 { t += i; }\n    t\n}\nfn main() {}\n"}},
 	{Name: "object-to-json", Tree: true, Mods: map[string]string{"main": `fn main() {
     let o = new { b: 1, a: [1, 2], c: "x" };
     println(o.to_json());
